@@ -134,6 +134,66 @@ where UnitCircle: Distribution<[F; 2]>, UnitDisc: Distribution<[F; 2]>, UnitSphe
     }
 }
 
+/// word whose Uniform(-1, 1) value is x = -1 + j * 2^-(MANT-1)  (j < 2^MANT; MANT = 23 / 52 fraction bits)
+fn word_j<F: Fx>(j: u64) -> u64 { if F::NAME == "f32" { (j << 9) << 32 } else { j << 12 } }
+fn mant<F: Fx>() -> u32 { if F::NAME == "f32" { 23 } else { 52 } }
+fn l14(mut v: u128) -> Vec<i64> { let mut o = vec![]; loop { o.push((v & 0x3fff) as i64); v >>= 14; if v == 0 { break; } } o }
+
+/// "edge": the acceptance region at the FULL resolution of the proposal lattice.  For a column (all coordinates but the last
+/// fixed at lattice points) the accepted values of the last coordinate on its non-negative side are a prefix; the last
+/// accepted lattice index is found by bisection on "accepted in the first iteration" (words consumed = dimension).
+/// "img": the documented image of an accepted proposal (UnitCircle, UnitSphere), evaluated by the harness in the sampler's
+/// float type from the lattice coordinates (declared transcription), against the returned value.
+fn edges<F: Fx>(seed: u64, ncol: usize, out: &mut Vec<String>)
+where UnitCircle: Distribution<[F; 2]>, UnitDisc: Distribution<[F; 2]>, UnitSphere: Distribution<[F; 3]>, UnitBall: Distribution<[F; 3]> {
+    let mut rnd = Sm(seed);
+    let m = mant::<F>();
+    let half: u64 = 1u64 << (m - 1);                 // j = half  <=>  x = 0
+    for kind in ["disc", "circle", "sphere", "ball"] {
+        let dim = if kind == "ball" { 3usize } else { 2 };
+        for c in 0..ncol {
+            // fixed coordinates: evenly spaced columns with a random offset, |x| <= 0.98 (ball: inside the disc of radius 0.98)
+            let mut fixed: Vec<u64> = vec![];
+            let span = (0.98 * half as f64) as u64;
+            for d in 0..dim - 1 {
+                let pos = if d == 0 { (c as u64 * 2 * span) / ncol as u64 + rnd.below((2 * span / ncol as u64).max(1)) } else { rnd.below(2 * span) };
+                fixed.push(half - span + pos.min(2 * span - 1));
+            }
+            if dim == 3 { let a = fixed[0] as f64 - half as f64; let b = fixed[1] as f64 - half as f64; if a * a + b * b > 0.96 * (half as f64) * (half as f64) { continue; } }
+            let mut acc_at = |jl: u64| -> bool { let mut ws: Vec<u64> = fixed.iter().map(|&j| word_j::<F>(j)).collect(); ws.push(word_j::<F>(jl)); let mut rng = ScriptRng::new(ws, 31); let _ = sample_kind::<F>(kind, &mut rng); rng.words() == dim as u64 };
+            // largest jl in [half, 2^m) that is accepted (x_last = 0 is accepted for these columns)
+            let (mut a, mut b) = (half, (1u64 << m) - 1);
+            if !acc_at(a) { out.push(json!({"op": "edge", "kind": kind, "ft": F::NAME, "res": "Ok", "zero_rejected": true, "fixed": [], "last": [0], "d": [0]}).to_string()); continue; }
+            while a < b { let mid = a + (b - a + 1) / 2; if acc_at(mid) { a = mid; } else { b = mid - 1; } }
+            out.push(json!({"op": "edge", "kind": kind, "ft": F::NAME, "res": "Ok", "zero_rejected": false,
+                "fixed": fixed.iter().map(|&j| l14((j as i64 - half as i64).unsigned_abs() as u128)).collect::<Vec<_>>(), "last": l14((a - half) as u128), "d": l14(half as u128),
+                "show": [format!("{:e}", (fixed[0] as f64 - half as f64) / half as f64), format!("{:e}", (a - half) as f64 / half as f64)]}).to_string());
+        }
+    }
+    // images: accepted proposals incl. points close to the axes (tiny second coordinate), where a formula that cancels shows
+    for kind in ["circle", "sphere"] {
+        for c in 0..ncol {
+            let j1 = match c % 4 { 0 => half + (0.999 * half as f64) as u64 - rnd.below(1 << 8), 1 => half - (0.999 * half as f64) as u64 + rnd.below(1 << 8), _ => half - half / 2 + rnd.below(half) };
+            let j2 = match c % 3 { 0 => half + 1 + rnd.below(1 << (m / 3)), 1 => half - 1 - rnd.below(1 << (m / 2)), _ => half - half / 2 + rnd.below(half) };
+            let mut rng = ScriptRng::new(vec![word_j::<F>(j1), word_j::<F>(j2)], 37);
+            let r = sample_kind::<F>(kind, &mut rng);
+            if rng.words() != 2 { continue; }                                    // not accepted in the first iteration
+            let x1 = F::of((j1 as f64 - half as f64) / half as f64); let x2 = F::of((j2 as f64 - half as f64) / half as f64);     // exact: lattice points are floats
+            let sum = x1 * x1 + x2 * x2;
+            let two = F::one() + F::one();
+            let refv: Vec<F> = if kind == "circle" { vec![(x1 * x1 - x2 * x2) / sum, two * x1 * x2 / sum] }
+                               else { let fct = two * (F::one() - sum).sqrt(); vec![x1 * fct, x2 * fct, F::one() - two * sum] };
+            match r {
+                Err(p) => out.push(json!({"op": "img", "kind": kind, "ft": F::NAME, "res": format!("Panic: {}", p), "got": [], "ref": [], "finite": false}).to_string()),
+                Ok(v) => { let fin = v.iter().chain(refv.iter()).all(|x| x.is_finite());
+                    out.push(json!({"op": "img", "kind": kind, "ft": F::NAME, "res": "Ok", "finite": fin, "got": v.iter().map(|&x| if fin { ord_limbs(x) } else { vec![0, 0, 0] }).collect::<Vec<_>>(),
+                        "ref": refv.iter().map(|&x| if fin { ord_limbs(x) } else { vec![0, 0, 0] }).collect::<Vec<_>>(),
+                        "show": [v.iter().map(|x| format!("{:e}", x)).collect::<Vec<_>>(), refv.iter().map(|x| format!("{:e}", x)).collect::<Vec<_>>()]}).to_string()); }
+            }
+        }
+    }
+}
+
 pub fn drive(args: &[String]) -> i32 {
     let seed = arg_u64(args, "--seed", 1);
     let n = arg_u64(args, "--random", 2000) as usize;
@@ -142,6 +202,8 @@ pub fn drive(args: &[String]) -> i32 {
     lat::<f32>(&mut out); lat::<f64>(&mut out);
     lat_more::<f64>(seed + 7, &mut out);
     if args.iter().any(|a| a == "--thorough") { lat_more::<f32>(seed + 8, &mut out); }
+    let ncol = if args.iter().any(|a| a == "--thorough") { 6000 } else { 800 };
+    edges::<f32>(seed + 11, ncol, &mut out); edges::<f64>(seed + 12, ncol, &mut out);
     let nlat = out.len();
     rands::<f32>(seed, n, &mut out); rands::<f64>(seed + 1, n, &mut out);
     let mut f = std::io::BufWriter::new(std::fs::File::create(&outp).unwrap());
